@@ -273,6 +273,10 @@ fn main() {
                 em.case(case, &res, nt);
             }
         }
+        "c04shapes" => {
+            let res = deep::shapes_case();
+            em.case(0, &res, true);
+        }
         "c03deep" => {
             for case in from..to {
                 prog(case, "c03deep");
